@@ -82,6 +82,9 @@ func LoadEngine(repo string, trustedDir string, patterns []string) (*Engine, err
 		return nil, fmt.Errorf("package load errors: %s", strings.Join(e.loadErrs, "; "))
 	}
 	e.pkgs = pkgs
+	for _, k := range []types.BasicKind{types.Bool, types.Int, types.Int8, types.Int16, types.Int32, types.Int64, types.Uint, types.Uint8, types.Uint16, types.Uint32, types.Uint64, types.Float32, types.Float64, types.String} {
+		typeTag(types.Typ[k]) // pre-register: lets interface assertions rule out the basic types
+	}
 	prog, _ := ssautil.AllPackages(pkgs, ssa.NaiveForm|ssa.GlobalDebug)
 	prog.Build()
 	e.prog = prog
